@@ -1,5 +1,6 @@
 """C18 - the bounding box encloses the domain."""
 import json
+from ..pipeline import geo_sig
 
 RULE = ("TLC generates primitives, boundaries, transforms (translations, six rational rotations about three points), "
         "products and all depth-1 Boolean combinations, each with a batch of three parameter rows; bounding_box is recorded "
@@ -21,7 +22,7 @@ def run(ctx):
         if ctx.quick:       # all primitives, every 4th composite
             prim = [s for s in out if s["expr"]["k"] in ("par", "tri", "circle", "interval", "sphere")]
             rest = [s for s in out if s["expr"]["k"] not in ("par", "tri", "circle", "interval", "sphere")]
-            out = prim + rest[ctx.seed % 4::4]
+            out = prim + ctx.stratified(rest, 0.25, key=lambda s: geo_sig(s["expr"], False))
         scen = out
     traces = ctx.drive("geoattr", scen, timeout=3000)
     ctx.validate("Trace_C18", traces, timeout=3000)
